@@ -19,7 +19,7 @@ import mergecommon as mc
 ID = 'C10'
 TITLE = 'Merging with renamed identifiers is a disjoint union, consistently renamed'
 GEN = ['MergeDispatch']
-RULE = ('each case = 1..4 generated datasets drawing sensor/rig ids from the same 3-id pool (identical ids across inputs), each '
+RULE = ('each case = 1..4 generated datasets drawing sensor/rig ids from the same 3-id pool (identical ids across inputs), 30% of the inputs using identifiers of the form sensor<N> / rig<N> themselves (an earlier merge output), each '
         'part independently missing in each input (so that a later input has a table an earlier one lacks), rigs of sensors, a '
         'random skip list, through merge_remap or the merge tool; distinct non-trivial = distinct cases in which two inputs share '
         'an identifier and some input lacks a part that a later input has')
@@ -37,6 +37,17 @@ def kap():
     return kapture
 
 
+def rename_ids(x, mapping):
+    """ the description with every sensor / rig identifier renamed (dict keys and string values alike) """
+    if isinstance(x, dict):
+        return {mapping.get(k, k) if isinstance(k, str) else k: rename_ids(v, mapping) for k, v in x.items()}
+    if isinstance(x, list):
+        return [rename_ids(v, mapping) for v in x]
+    if isinstance(x, str):
+        return mapping.get(x, x)
+    return x
+
+
 def gen_case(rng, tier):
     n = rng.choice([1, 2, 2, 3, 3, 4])
     dsets = []
@@ -47,6 +58,18 @@ def gen_case(rng, tier):
         d = kgen.gen_dataset(rng, opts)
         for sid, s in d['sensors'].items():
             s['name'] = f'in{i}:{sid}'
+        if rng.random() < 0.3:
+            # an input that is itself the output of an earlier merge: its identifiers ARE of the form sensor<N> / rig<N>, in any
+            # order, and collide with the fresh identifiers handed out to the inputs before it
+            sids = list(d['sensors'])
+            rids = [r for r in (d['rigs'] or {}) if r not in d['sensors']]
+            ks = rng.sample(range(0, len(sids) + 3), len(sids))
+            kr = rng.sample(range(0, len(rids) + 2), len(rids))
+            mapping = {sid: f'sensor{k}' for sid, k in zip(sids, ks)}
+            mapping.update({rid: f'rig{k}' for rid, k in zip(rids, kr)})
+            d = rename_ids(d, mapping)
+            for sid, s in d['sensors'].items():
+                s['name'] = f'in{i}:{sid}'
         dsets.append(d)
     skip = [t for a, t in mc.TYPE_OF_ATTR.items() if a in mc.SIMPLE and rng.random() < 0.08]
     return {'datasets': dsets, 'skip': skip, 'via_tool': rng.random() < 0.25}
